@@ -13,7 +13,9 @@ and saw and what the client reported:
   sub g i items    goroutine g hands over submission i (marshalled messages); lin g i items = converter lines
   dec i items      the decoder's output for vocabulary entry i (opaque: Unmarshal / ASCII decoder)
   dex i items      the same for the other mode's decoder (scripts whose connections negotiate different modes)
-  big g i n size   goroutine g hands over submission i: n graphics states of `size` image bytes (bytes not listed)
+  big g i n size bf bb al ab   goroutine g hands over submission i: n graphics states of `size` image bytes; the bytes
+                   are not listed, only what the list amounts to on the wire: bf frames of bb bytes in all (binary),
+                   al lines of ab bytes in all, line feeds included (ASCII)
   det b            return value of the stand-alone detector
   cancel, ret, heap n, panic
 
@@ -21,6 +23,11 @@ The reference readers (`parse`, `splitLF`, `trim`) are written from the protocol
 4-byte little-endian length followed by that many bytes; an ASCII message is a line terminated by LF or CRLF.
 
 Timing clauses ("promptly", "within 2 s") use the tolerance `tol`; ordering and content clauses never do.
+
+Scripts may have several connections.  Every connection is judged on its own (`checkConnC08`, `checkConnC10`,
+`checkConnC12`); a connection outside the property's domain is left out alone (`Verdict.partly`), a script is skipped
+only when all its connections are, and the clauses about the whole run (panic, never connected, memory, the probe on
+every connection, …) are judged in any case (`combineBy`).
 -/
 namespace RawPanelVerif.Spec.Net
 
@@ -162,7 +169,8 @@ inductive Ev
   | cancel | ret | noret | wg | nowg
   | sub (g i : Nat) (items : List Bytes) | lin (g i : Nat) (items : List Bytes)
   | heap (n : Nat) | panic | det (b : Bool) | dec (i : Nat) (items : List Bytes) | ping (b : Bytes)
-  | dex (i : Nat) (items : List Bytes) | big (g i count size : Nat)
+  | dex (i : Nat) (items : List Bytes)
+  | big (g i count size bframes bbytes alines abytes : Nat)
   | other
   deriving DecidableEq, Repr
 
@@ -177,13 +185,20 @@ inductive Verdict
   | ok
   | skip (reason : String)     -- the script is outside the domain the property speaks about
   | fail (clause : String)
+  | partly (skipped : List String)   -- some connections of the script are outside the domain (reasons), every other
+                                     -- connection and every clause about the whole run was judged and holds
   deriving DecidableEq, Repr
 
 /-- timing tolerance (ms) for "promptly" / "within" clauses -/
 def tol : Nat := 400
 /-- distance (ms) a script must keep from the 2 s contract for the timing-dependent clauses to apply -/
 def margin : Nat := 300
+/-- the numbers of the property texts (never taken from the code; `Props/C08`, `C10`, `C12` prove that the constants
+regenerated from the source are these): "the 2 s in-frame timeout", "the 500000-byte limit", an acknowledge "however
+long (below 2 s) it takes" -/
 def frameTimeoutMs : Nat := 2000
+def frameLimit : Nat := 500000
+def probeWindowMs : Nat := 2000
 /-- heap growth (bytes) tolerated during a run that contains an over-limit header -/
 def heapBound : Nat := 67108864
 
@@ -408,32 +423,69 @@ def checkConnC08 (limit : Nat) (sc : Script) (tr : Trace) (k : Nat) (acts : List
           -- dropped (if at all) only after the panel closed
           (if w.dis.isSome ∧ ¬ anyEv (· == .cl k) w.body then .fail "disconnect-inside-contract" else .ok)
 
-def checkConnsC08 (limit : Nat) (sc : Script) (tr : Trace) : Nat → List (List Act) → List Window → Verdict
-  | _, [], _ => .ok
+/-- the verdict of every scripted connection, in order (connection number, verdict) -/
+def connVerdictsC08 (limit : Nat) (sc : Script) (tr : Trace) : Nat → List (List Act) → List Window → List (Nat × Verdict)
+  | _, [], _ => []
   | k, acts :: rest, ws =>
-    match checkConnC08 limit sc tr k acts ws.head? rest.isEmpty with
-    | .fail c => .fail (if k = 0 ∧ rest.isEmpty then c else s!"{c}@conn{k}")
-    | .skip r => .skip r
-    | .ok => checkConnsC08 limit sc tr (k + 1) rest ws.tail
+    (k, checkConnC08 limit sc tr k acts ws.head? rest.isEmpty) :: connVerdictsC08 limit sc tr (k + 1) rest ws.tail
+
+def firstFailBy (suffix : Nat → Bool) : List (Nat × Verdict) → Option String
+  | [] => none
+  | (k, .fail c) :: _ => some (if suffix k then s!"{c}@conn{k}" else c)
+  | _ :: r => firstFailBy suffix r
+
+/-- `single`: the script has one connection, clause names carry no connection number -/
+def firstFail (single : Bool) (vs : List (Nat × Verdict)) : Option String := firstFailBy (fun _ => !single) vs
+
+def skipReasons : List (Nat × Verdict) → List String
+  | [] => []
+  | (k, .skip r) :: rest => s!"conn{k}:{r}" :: skipReasons rest
+  | _ :: rest => skipReasons rest
+
+/-- combine: a failing connection fails the script; connections outside the domain are left out one by one (a script
+is skipped only when *every* connection is); the clauses about the whole run are judged in any case -/
+def combineBy (suffix : Nat → Bool) (global : Option String) (vs : List (Nat × Verdict)) : Verdict :=
+  match global with
+  | some c => .fail c
+  | none =>
+    match firstFailBy suffix vs with
+    | some c => .fail c
+    | none =>
+      let sk := skipReasons vs
+      if sk.isEmpty then .ok
+      else if sk.length = vs.length then
+        (match vs with
+         | [(_, .skip r)] => .skip r
+         | _ => .skip (",".intercalate sk))
+      else .partly sk
+
+def combine (global : Option String) (vs : List (Nat × Verdict)) : Verdict :=
+  combineBy (fun _ => decide (vs.length ≠ 1)) global vs
 
 def checkC08 (limit : Nat) (sc : Script) (tr : Trace) : Verdict :=
   if sc.conns.isEmpty then .skip "no-connection-script" else
   let ws := windows (sc.conns.length + 2) tr
-  match checkConnsC08 limit sc tr 0 sc.conns ws with
-  | .skip r => .skip r
-  | v =>
-    -- global clauses come first in the report: they explain the per-connection ones
-    if anyEv (· == .panic) tr then .fail "panic"
-    else if panelScriptIncomplete tr then .fail "panel-script-incomplete"
-    else if (timeOf isCon tr).isNone then .fail "never-connected"
-    else match v with
-      | .fail c => .fail c
-      | _ =>
-        -- nothing else: every delivery lies inside a connection's window, and no connection beyond the scripted ones
-        -- delivered anything
+  let vs := connVerdictsC08 limit sc tr 0 sc.conns ws
+  -- clauses about the whole run: judged whatever the connections are; they come first in the report (they explain
+  -- the per-connection ones)
+  let early : Option String :=
+    if anyEv (· == .panic) tr then some "panic"
+    else if panelScriptIncomplete tr then some "panel-script-incomplete"
+    else if (timeOf isCon tr).isNone then some "never-connected"
+    else none
+  match early with
+  | some c => .fail c
+  | none =>
+    match firstFail (vs.length = 1) vs with
+    | some c => .fail c
+    | none =>
+      -- nothing else: every delivery lies inside a connection's window, and no connection beyond the scripted ones
+      -- delivered anything
+      let late : Option String :=
         if (msgsOf tr).length != ((ws.take sc.conns.length).map (fun w => (msgsOf w.body).length)).sum then
-          .fail "delivery-outside-the-scripted-connections"
-        else .ok
+          some "delivery-outside-the-scripted-connections"
+        else none
+      combine late vs
 
 /-! ## C10 — malformed or stalled streams are contained -/
 
@@ -475,13 +527,10 @@ def checkConnC10 (limit : Nat) (sc : Script) (tr : Trace) (k : Nat) (acts : List
               | none => .fail "no-reconnect"
               | some ta => if ta > d.t + sc.retryS * 1000 + tol then .fail "reconnect-late" else .ok
 
-def checkConnsC10 (limit : Nat) (sc : Script) (tr : Trace) : Nat → List (List Act) → List Window → Verdict
-  | _, [], _ => .ok
+def connVerdictsC10 (limit : Nat) (sc : Script) (tr : Trace) : Nat → List (List Act) → List Window → List (Nat × Verdict)
+  | _, [], _ => []
   | k, acts :: rest, ws =>
-    match checkConnC10 limit sc tr k acts ws.head? rest.isEmpty with
-    | .fail c => .fail s!"{c}@conn{k}"
-    | .skip r => .skip r
-    | .ok => checkConnsC10 limit sc tr (k + 1) rest ws.tail
+    (k, checkConnC10 limit sc tr k acts ws.head? rest.isEmpty) :: connVerdictsC10 limit sc tr (k + 1) rest ws.tail
 
 def heapOf : Trace → Option Nat
   | [] => none
@@ -490,19 +539,39 @@ def heapOf : Trace → Option Nat
     | _ => heapOf r
 
 def checkC10 (limit : Nat) (sc : Script) (tr : Trace) : Verdict :=
-  if anyEv (· == .panic) tr then .fail "panic"
-  else if anyEv (· == .noret) tr then .fail "no-return-after-cancel"
-  else if (match heapOf tr with | some n => decide (n > heapBound) | none => false) then .fail "memory-of-attacker-chosen-size"
-  else checkConnsC10 limit sc tr 0 sc.conns (windows (sc.conns.length + 2) tr)
+  -- clauses about the whole run ("never panics, never reserves memory of attacker-chosen size") are judged in any case
+  let global : Option String :=
+    if anyEv (· == .panic) tr then some "panic"
+    else if anyEv (· == .noret) tr then some "no-return-after-cancel"
+    else if (match heapOf tr with | some n => decide (n > heapBound) | none => false) then some "memory-of-attacker-chosen-size"
+    else none
+  let vs := connVerdictsC10 limit sc tr 0 sc.conns (windows (sc.conns.length + 2) tr)
+  match global with
+  | some c => .fail c
+  | none =>
+    -- C10 has always named the connection of a failing clause
+    combineBy (fun _ => true) none vs
 
 /-! ## C09 — submitted messages reach the panel intact, in order, in the negotiated encoding -/
 
+/-- one message list handed to the client, as the trace describes it -/
+inductive Sub
+  | listed (units : List Bytes)     -- its units on the wire (binary: payloads, ASCII: lines), byte for byte
+  | sized (n bytes : Nat)           -- only how much it is: `n` units, `bytes` bytes on the wire in all (frame headers /
+                                    -- line feeds included)
+  deriving DecidableEq, Repr
+
+def Sub.isEmpty : Sub → Bool
+  | .listed u => u.isEmpty
+  | .sized n _ => n == 0
+
 /-- per goroutine, the submissions in the order they were handed over (units: payloads or lines) -/
-def subsOf (ascii : Bool) (g : Nat) : Trace → List (List Bytes)
+def subsOf (ascii : Bool) (g : Nat) : Trace → List Sub
   | [] => []
   | e :: r => match e.e with
-    | .sub g' _ items => if g' = g ∧ ¬ ascii then items :: subsOf ascii g r else subsOf ascii g r
-    | .lin g' _ items => if g' = g ∧ ascii then items :: subsOf ascii g r else subsOf ascii g r
+    | .sub g' _ items => if g' = g ∧ ¬ ascii then .listed items :: subsOf ascii g r else subsOf ascii g r
+    | .lin g' _ items => if g' = g ∧ ascii then .listed items :: subsOf ascii g r else subsOf ascii g r
+    | .big g' _ _ _ bf bb al ab => if g' = g then (if ascii then .sized al ab else .sized bf bb) :: subsOf ascii g r else subsOf ascii g r
     | _ => subsOf ascii g r
 
 def stripPrefix : List Bytes → List Bytes → Option (List Bytes)
@@ -510,9 +579,18 @@ def stripPrefix : List Bytes → List Bytes → Option (List Bytes)
   | [], _ :: _ => none
   | a :: l, b :: p => if a = b then stripPrefix l p else none
 
+/-- `units` begins with this submission: the listed units themselves, or — for a list whose bytes the trace does not
+carry — the right number of units with the right number of bytes (`overhead` = bytes per unit besides the unit itself:
+4 for a frame header, 1 for a line feed) -/
+def stripSub (overhead : Nat) (units : List Bytes) : Sub → Option (List Bytes)
+  | .listed s => stripPrefix units s
+  | .sized n bytes =>
+    if units.length < n then none
+    else if ((units.take n).map (fun u => u.length + overhead)).sum = bytes then some (units.drop n) else none
+
 /-- `units` is an interleaving of the goroutines' submission sequences that keeps every submission contiguous
 and every goroutine's own order (depth-first search; fuel = number of submissions + 1) -/
-def interleaves : Nat → List Bytes → List (List (List Bytes)) → Bool
+def interleaves (overhead : Nat) : Nat → List Bytes → List (List Sub) → Bool
   | 0, _, _ => false
   | fuel + 1, units, pending =>
     let pending := pending.map (fun q => q.dropWhile (·.isEmpty))   -- an empty submission writes nothing
@@ -521,8 +599,8 @@ def interleaves : Nat → List Bytes → List (List (List Bytes)) → Bool
       (List.range pending.length).any (fun g =>
         match pending[g]? with
         | some (s :: q) =>
-          match stripPrefix units s with
-          | some rest => interleaves fuel rest (pending.set g q)
+          match stripSub overhead units s with
+          | some rest => interleaves overhead fuel rest (pending.set g q)
           | none => false
         | _ => false)
 
@@ -532,7 +610,7 @@ def afterNthCon : Nat → Trace → Trace
   | _ + 1, [] => []
   | n + 1, e :: r => if isCon e.e then afterNthCon n r else afterNthCon (n + 1) r
 
-def isBig : Ev → Bool | .big _ _ _ _ => true | _ => false
+def isBig : Ev → Bool | .big .. => true | _ => false
 
 def stripPrefixB : Bytes → Bytes → Option Bytes
   | l, [] => some l
@@ -542,7 +620,8 @@ def stripPrefixB : Bytes → Bytes → Option Bytes
 /-- The connection that is up at the end of the script (the last scripted one; earlier ones were lost): every list
 handed over after its `onconnect` — "while connected" — must be on the wire of *that* connection, completely, in
 order, in that connection's encoding, and nothing else (in particular nothing of lists handed over on an earlier
-connection, and nothing missing because someone else took a list). -/
+connection, and nothing missing because someone else took a list).  A list the trace describes only by its size
+(`big`) must be there as that many frames / lines with that many bytes, contiguous, at its place in the order. -/
 def checkC09 (sc : Script) (tr : Trace) : Verdict :=
   if sc.conns.isEmpty then .skip "no-connection-script" else
   let kLast := sc.conns.length - 1
@@ -554,7 +633,6 @@ def checkC09 (sc : Script) (tr : Trace) : Verdict :=
   | some w =>
   if ¬ conIs bin w.con.e then .fail "mode" else
   let after := afterNthCon (kLast + 1) tr
-  if anyEv isBig after then .skip "unlisted-submission-on-the-checked-connection" else
   if panelScriptIncomplete tr then .fail "bytes-missing-at-panel" else
   let rx := rxBytes kLast tr
   match stripPrefixB rx probe with
@@ -566,14 +644,14 @@ def checkC09 (sc : Script) (tr : Trace) : Verdict :=
     if bin then
       let p := parse 4294967296 afterProbe
       if p.2 != .done then .fail "stream-does-not-parse-into-frames"
-      else if ¬ interleaves (nsub + 1) p.1 pending then .fail "frames-not-the-submissions-in-order"
+      else if ¬ interleaves 4 (nsub + 1) p.1 pending then .fail "frames-not-the-submissions-in-order"
       else .ok
     else
       match afterProbe with
       | 10 :: data =>
         let p := splitLF data
         if p.2 != [] then .fail "line-not-terminated"
-        else if ¬ interleaves (nsub + 1) p.1 pending then .fail "lines-not-the-submissions-in-order"
+        else if ¬ interleaves 1 (nsub + 1) p.1 pending then .fail "lines-not-the-submissions-in-order"
         else .ok
       | _ => .fail "flush-linefeed"
 
@@ -632,14 +710,18 @@ def probeScriptOf (acts : List Act) : ProbeScript :=
       (fun a => match a with | .sleep ms => ms | _ => 0)).sum
   ⟨if reply.isSome ∨ closes then delayBeforeReply else delay, reply, closes, first⟩
 
-/-- observed verdict: `con` flag and error text (client) or `det` (detector) -/
-def observedVerdict (client : Bool) (tr : Trace) : Option (Bool × Bytes) :=
-  match tr with
-  | [] => none
-  | e :: r => match e.e with
-    | .con b err => if client then some (b, err) else observedVerdict client r
-    | .det b => if client then observedVerdict client r else some (b, [])
-    | _ => observedVerdict client r
+/-- the n-th (0-based) observed verdict: `con` flag and error text (client) or `det` (detector) -/
+def nthVerdict (client : Bool) : Nat → Trace → Option (Bool × Bytes)
+  | _, [] => none
+  | n, e :: r =>
+    match e.e with
+    | .con b err =>
+      if client then (match n with | 0 => some (b, err) | m + 1 => nthVerdict client m r) else nthVerdict client n r
+    | .det b =>
+      if client then nthVerdict client n r else (match n with | 0 => some (b, []) | m + 1 => nthVerdict client m r)
+    | _ => nthVerdict client n r
+
+def observedVerdict (client : Bool) (tr : Trace) : Option (Bool × Bytes) := nthVerdict client 0 tr
 
 def isPrefixB : Bytes → Bytes → Bool
   | [], _ => true
@@ -649,58 +731,79 @@ def isPrefixB : Bytes → Bytes → Bool
 /-- a reply sent (as observed at the panel) within `guard` ms of the end of the 2 s window is not judged -/
 def guard : Nat := 50
 
+/-- observed reply delay on connection `k`: from the panel reading the probe to its reply (or its close) -/
+def replyDelayObs (tr : Trace) (k : Nat) (scripted : Nat) : Nat :=
+  let tProbe := timeOf (fun e => match e with | .rx k' _ => k' == k | _ => false) tr
+  let tReply := timeOf (fun e => match e with | .tx k' _ => k' == k | .cl k' => k' == k | _ => false) tr
+  match tProbe, tReply with | some a, some b => b - a | _, _ => scripted
+
+/-- the class the property's clauses are chosen by, given the observed delay: a reply at or after the end of the window
+is silence; one within `guard` ms of the end, and a close inside the window, are not judged -/
+def effectiveClass (ps : ProbeScript) (delayObs : Nat) : ReplyClass :=
+  if ps.reply.isSome ∧ delayObs + guard ≥ probeWindowMs then
+    (if delayObs ≥ probeWindowMs + guard then ReplyClass.silence else .unnamed)   -- too close to the window's end
+  else if ps.reply.isNone ∧ ps.closes ∧ delayObs < probeWindowMs + guard then .unnamed  -- closes inside the window
+  else classOfReply ps.reply
+
+/-- One connection of a C12 script (the `k`-th the entry point opens: the reconnecting client probes every new
+connection; the stand-alone detector is called once per connection): the clauses of the property for the class of what
+the panel replies on *this* connection, whatever happened on earlier ones. -/
+def checkConnC12 (client : Bool) (tr : Trace) (k : Nat) (acts : List Act) : Verdict :=
+  let ps := probeScriptOf acts
+  let rx := rxBytes k tr
+  match nthVerdict client k tr with
+  | none => if k = 0 ∨ rx != [] then .fail "no-verdict" else .skip "connection-never-made"
+  | some (bin, err) =>
+    -- The property ranges over reply classes × delay × entry point, not over the TCP segmentation of the reply: a
+    -- reply the panel sends in several writes is outside its domain (what a single `Read` returns then depends on
+    -- the segmentation; the model's prediction is still compared)
+    if (writesOf acts).length > 1 then .skip "reply-in-several-segments" else
+    let delayObs := replyDelayObs tr k ps.delay
+    let cls := effectiveClass ps delayObs
+    let asciiRx := probe ++ [10]
+    let rxOk (want : Bytes) : Bool := if ps.closes then isPrefixB rx want else rx == want
+    match cls with
+    | .ack =>
+      if ¬ bin then .fail "ack-frame-not-binary"
+      else if ¬ rxOk probe then .fail "binary-panel-gets-more-than-the-probe"
+      else .ok
+    | .silence | .rdy | .map =>
+      if bin then .fail "ascii-panel-classified-binary"
+      else if ¬ rxOk asciiRx then .fail "ascii-panel-not-exactly-one-linefeed"
+      else .ok
+    | .errorMsg text =>
+      if ¬ client then .skip "detector:text-reply-unnamed"
+      else if bin then .fail "text-reply-classified-binary"
+      else if ¬ rxOk asciiRx then .fail "ascii-panel-not-exactly-one-linefeed"
+      else if err != text then .fail "error-message-not-handed-to-onconnect"
+      else .ok
+    | .otherText =>
+      if ¬ client then .skip "detector:text-reply-unnamed"
+      else if bin then .fail "text-reply-classified-binary"
+      else if ¬ rxOk asciiRx then .fail "ascii-panel-not-exactly-one-linefeed"
+      else .ok
+    | .otherFrame => .skip "reply-class-unnamed"
+    | .unnamed => .skip "reply-class-unnamed"
+
+def connVerdictsC12 (client : Bool) (tr : Trace) : Nat → List (List Act) → List (Nat × Verdict)
+  | _, [] => []
+  | k, acts :: rest => (k, checkConnC12 client tr k acts) :: connVerdictsC12 client tr (k + 1) rest
+
 def checkC12 (client : Bool) (sc : Script) (tr : Trace) : Verdict :=
-  match sc.conns with
-  | [] => .skip "no-connection-script"
-  | acts :: _ =>
-    let ps := probeScriptOf acts
-    let rx := rxBytes 0 tr
-    if anyEv (· == .panic) tr then .fail "panic" else
+  if sc.conns.isEmpty then .skip "no-connection-script" else
+  let rx := rxBytes 0 tr
+  -- clauses about the whole run, judged whatever the reply classes are
+  let global : Option String :=
+    if anyEv (· == .panic) tr then some "panic"
     -- the probe is exactly one length-prefixed ping, and it comes first
-    if ¬ isPrefixB probe rx then .fail "probe" else
-    -- … on every connection the client opens, not only the first
-    if (List.range sc.conns.length).any (fun k => k > 0 && (rxBytes k tr) != [] && !isPrefixB probe (rxBytes k tr))
-      then .fail "probe-on-reconnect" else
-    if (match tr.findSome? (fun e => match e.e with | .ping b => some b | _ => none) with
-        | some b => b != pingPayload | none => false) then .fail "setup:ping-marshal" else
-    match observedVerdict client tr with
-    | none => .fail "no-verdict"
-    | some (bin, err) =>
-      -- The property ranges over reply classes × delay × entry point, not over the TCP segmentation of the reply: a
-      -- reply the panel sends in several writes is outside its domain (what a single `Read` returns then depends on
-      -- the segmentation; the model's prediction is still compared)
-      if (writesOf acts).length > 1 then .skip "reply-in-several-segments" else
-      -- observed reply delay: from the panel reading the probe to its reply
-      let tProbe := timeOf (fun e => match e with | .rx 0 _ => true | _ => false) tr
-      let tReply := timeOf (fun e => match e with | .tx 0 _ => true | .cl 0 => true | _ => false) tr
-      let delayObs := match tProbe, tReply with | some a, some b => b - a | _, _ => ps.delay
-      let cls := if ps.reply.isSome ∧ delayObs + guard ≥ frameTimeoutMs then
-                   (if delayObs ≥ frameTimeoutMs + guard then ReplyClass.silence else .unnamed)   -- too close to the window's end
-                 else if ps.reply.isNone ∧ ps.closes ∧ delayObs < frameTimeoutMs + guard then .unnamed  -- closes inside the window
-                 else classOfReply ps.reply
-      let asciiRx := probe ++ [10]
-      let rxOk (want : Bytes) : Bool := if ps.closes then isPrefixB rx want else rx == want
-      match cls with
-      | .ack =>
-        if ¬ bin then .fail "ack-frame-not-binary"
-        else if ¬ rxOk probe then .fail "binary-panel-gets-more-than-the-probe"
-        else .ok
-      | .silence | .rdy | .map =>
-        if bin then .fail "ascii-panel-classified-binary"
-        else if ¬ rxOk asciiRx then .fail "ascii-panel-not-exactly-one-linefeed"
-        else .ok
-      | .errorMsg text =>
-        if ¬ client then .skip "detector:text-reply-unnamed"
-        else if bin then .fail "text-reply-classified-binary"
-        else if ¬ rxOk asciiRx then .fail "ascii-panel-not-exactly-one-linefeed"
-        else if err != text then .fail "error-message-not-handed-to-onconnect"
-        else .ok
-      | .otherText =>
-        if ¬ client then .skip "detector:text-reply-unnamed"
-        else if bin then .fail "text-reply-classified-binary"
-        else if ¬ rxOk asciiRx then .fail "ascii-panel-not-exactly-one-linefeed"
-        else .ok
-      | .otherFrame => .skip "reply-class-unnamed"
-      | .unnamed => .skip "reply-class-unnamed"
+    else if ¬ isPrefixB probe rx then some "probe"
+    -- … on every connection the entry point opens, not only the first
+    else if (List.range sc.conns.length).any (fun k => k > 0 && (rxBytes k tr) != [] && !isPrefixB probe (rxBytes k tr))
+      then some "probe-on-reconnect"
+    else if (match tr.findSome? (fun e => match e.e with | .ping b => some b | _ => none) with
+        | some b => b != pingPayload | none => false) then some "setup:ping-marshal"
+    else none
+  -- clause names of the first connection carry no connection number (scripts with one connection are the rule)
+  combineBy (fun k => decide (k > 0)) global (connVerdictsC12 client tr 0 sc.conns)
 
 end RawPanelVerif.Spec.Net
